@@ -453,6 +453,8 @@ function genPlain(rng, ctx, depth) {
         else fields.push({ k: 'kv', name: fname, e: ctx.genExpr(rng, 2) })
       }
       if (rng.bool(0.2)) fields.push({ k: 'spread', e: X.id(rng.pick(ctx.objNames || ['ob'])) })
+      // `data` may be any expression that yields an object, not only the brace-less object form
+      if (rng.bool(0.15)) return { t: 'tref', is, data: rng.bool(0.5) ? X.cond(ctx.genExpr(rng, 1), X.obj(fields), X.obj(fields.filter((f) => f.k !== 'spread').slice(0, 1))) : rng.pick([() => X.cond(ctx.genExpr(rng, 1), X.id('ob'), X.id(rng.pick(['ob', 'obj']))), () => X.bin('||', X.id('ob'), X.id('obj')), () => X.bin('&&', X.id('flag'), X.id('ob')), () => X.idx(X.arr([{ k: 'v', e: X.id('ob') }]), X.num('0'))])() }
       return { t: 'tref', is, data: rng.bool(0.1) ? null : X.obj(fields) }
     }
     case 'include': return { t: 'include', src: rng.pick(ctx.includes) }
